@@ -160,7 +160,8 @@ Why ==
   ELSE IF Ev.ev = "check_ref_again" THEN <<"changed-after-use", Ev.ok>>
   ELSE IF Ev.ev = "check" THEN <<"differs-from-check_ref", Ev.ok>>
   ELSE IF Ev.ev = "call" THEN <<Ev.form, "on-checked", Ev.res>>
-  ELSE IF Ev.ev = "done" THEN <<"unlike-checked-form">>
+  ELSE IF Ev.ev = "done" THEN
+       <<"unlike-checked-form", {fm \in Doc[A].forms : ures[fm].res = "none" \/ (ver = "pass" /\ ~SameAsChecked(fm))}>>
   ELSE <<"unexplained">>
 Detail ==
   IF Ev.ev \in {"check_ref", "check_ref_again", "check"} /\ e > 1
